@@ -154,7 +154,9 @@ def main():
     # seams
     lock = WatchedLock(utils._tty_lock)
     utils._tty_lock = lock
-    utils._rlock_type = WatchedLock
+    from harness.env import sched as _sched
+
+    _sched.rebind_lock_type(utils, type(lock.real), WatchedLock)
     utils.termios = Proxy(termios, {"tcgetattr", "tcsetattr", "tcdrain"})
     utils.os = Proxy(os, {"read", "write"})
     real_select = utils.select
